@@ -98,6 +98,21 @@ fn check_pieces(pieces: &[Piece], rng: &mut Rng) -> Result<Stats, (String, Strin
             stats.adjacent_multichar = true;
         }
     }
+    // long runs of blanks at two random unprotected positions (length boundaries of small integer types and of
+    // any fixed look-ahead window)
+    let ok_positions: Vec<usize> = (0..=bytes.len()).filter(|p| m.insert_ok[*p]).collect();
+    if !ok_positions.is_empty() {
+        for _ in 0..2 {
+            let pos = ok_positions[rng.usize(ok_positions.len())];
+            let n = *rng.pick(&[16usize, 17, 40, 127, 128, 255, 256, 257, 300, 1000]);
+            let run = if rng.chance(1, 4) { "\t".repeat(n) } else { " ".repeat(n) };
+            let mut v = String::with_capacity(text.len() + n);
+            v.push_str(&text[..pos]);
+            v.push_str(&run);
+            v.push_str(&text[pos..]);
+            try_variant(v, &format!("inserting {} blanks at byte {}", n, pos), &mut stats)?;
+        }
+    }
     // single deletions of blanks, single case flips
     for i in 0..bytes.len() {
         if !m.edit_ok[i] {
